@@ -104,8 +104,10 @@ structure Sender where
   nextId : Nat
   encPos : Nat
   log : List Wire          -- everything ever emitted (monotone history)
-  sent : List Bytes        -- non-empty application messages accepted by `send`, in order
+  sent : List Bytes        -- non-empty application messages passed to `send`, in order (incl. the one being sent)
   closing : Bool           -- `disconnect()` was called: later sends raise
+  pending : List Frag := []   -- fragments of the message being sent that are still to be emitted (the loop of `send`)
+  clean : Bool := true        -- ghost: `disconnect()` was called while no `send` was in progress
   deriving Repr
 
 /-- what the receiving application side has (everything except the window) -/
@@ -125,8 +127,10 @@ structure Chan where
   r : Receiver
 
 inductive Op where
-  | send (msg : Bytes)     -- `await client.send(msg, substream)` (atomic: one writer at a time per substream)
-  | ping                   -- keep-alive (shares substream 0's counter)
+  | send (msg : Bytes)     -- `await client.send(msg, substream)` as one step (nothing else happens between its fragments)
+  | begin (msg : Bytes)    -- the same call, fragment by fragment: it takes the substream's send lock and splits the message …
+  | frag                   -- … and each turn of its loop emits one fragment; pings, disconnect and arrivals may fall in between
+  | ping                   -- keep-alive (shares substream 0's counter; sent by the timer task without the send lock)
   | disconnect             -- graceful `disconnect()`: reliable DISCONNECT, later sends refused
   | arrive (j : Nat)       -- the network hands the receiver a copy of `log[j]` (any order, any number of times)
   deriving Repr
@@ -147,10 +151,25 @@ def iterSeq : Nat → Nat → Nat
   | n + 1, id => iterSeq n (seqNext id)
 
 def Sender.send (c : Cipher) (size : Nat) (s : Sender) (msg : Bytes) : Sender :=
-  if s.closing then s else
+  if s.closing || !s.pending.isEmpty then s else   -- closed: raises; another send holds the substream's lock: waits
   let ws := wiresOf c s.nextId s.encPos (split size msg)
   { s with nextId := iterSeq ws.length s.nextId, encPos := s.encPos + wiresLen ws, log := s.log ++ ws,
            sent := if msg.isEmpty then s.sent else s.sent ++ [msg] }
+
+/-- `send` up to its fragment loop: state check, lock, `sent` grows (the application has passed the message) -/
+def Sender.begin (size : Nat) (s : Sender) (msg : Bytes) : Sender :=
+  if s.closing || !s.pending.isEmpty then s else
+  { s with pending := split size msg, sent := if msg.isEmpty then s.sent else s.sent ++ [msg] }
+
+/-- one turn of the fragment loop of `send` (it does not look at the connection state again: a `disconnect()` issued by
+    another task in the meantime does not stop it) -/
+def Sender.frag (c : Cipher) (s : Sender) : Sender :=
+  match s.pending with
+  | [] => s
+  | f :: fs =>
+    let ct := if f.data.isEmpty then f.data else c.enc s.encPos f.data
+    { s with nextId := seqNext s.nextId, encPos := s.encPos + ct.length,
+             log := s.log ++ [⟨s.nextId, .data f.fragId, ct⟩], pending := fs }
 
 /-- the keep-alive timer keeps firing while DISCONNECTING: pings are emitted even after `disconnect()` -/
 def Sender.ping (s : Sender) : Sender :=
@@ -158,7 +177,8 @@ def Sender.ping (s : Sender) : Sender :=
 
 def Sender.disconnect (s : Sender) : Sender :=
   if s.closing then s else
-  { s with nextId := seqNext s.nextId, log := s.log ++ [⟨s.nextId, .disconnect, []⟩], closing := true }
+  { s with nextId := seqNext s.nextId, log := s.log ++ [⟨s.nextId, .disconnect, []⟩], closing := true,
+           clean := s.pending.isEmpty }
 
 /-- process the released packets (`process_reliable`) -/
 def Core.consume (c : Cipher) (r : Core) : List Wire → Core
@@ -179,6 +199,8 @@ def Receiver.arrive (c : Cipher) (r : Receiver) (w : Wire) : Receiver :=
 
 def step (c : Cipher) (size : Nat) (ch : Chan) : Op → Chan
   | .send m => { ch with s := ch.s.send c size m }
+  | .begin m => { ch with s := ch.s.begin size m }
+  | .frag => { ch with s := ch.s.frag c }
   | .ping => { ch with s := ch.s.ping }
   | .disconnect => { ch with s := ch.s.disconnect }
   | .arrive j =>
